@@ -9,7 +9,10 @@ document are compared with tr.steps / the raised error / tr.doc of the real oper
 (replace_step beyond a trivial fit, property C11) is an oracle of the model: its recorded answers are
 handed over in call order and all must be consumed.  In addition every emitted step is applied by the
 model to the recorded document before it, and the final document satisfies the documented per-token
-effect.
+effect.  The specification side of clear_incompatible (lean/PM/KeptChildren.lean: `retypedChildren` = the left-to-right
+filter `keptChildren` + fillers; theorems clearIncompatible_spec / setBlockType_spec) is tied through the
+`retypedChildren` request: every completed call of the real clear_incompatible (inside set_block_type and called
+directly on random nodes and types) is recorded, and the children it left must be exactly what the function says.
 Search: per-token oracle computed from to_json(): qualifying inline tokens inside the range carry
 the mark (documented add rule), matching marks are gone after removal, text/structure and marks
 outside the range are unchanged, node-level edits change only the addressed node, retyping keeps
@@ -45,6 +48,28 @@ def _logged_fit(self):
 
 
 _replace_mod.Fitter.fit = _logged_fit
+
+# Every completed call of the real clear_incompatible is recorded while this module runs a case: the node found at `pos`
+# before the call, the parent type, the explicit match (None inside set_block_type), the node at `pos` afterwards and the
+# number of Fitter calls made meanwhile.  The specification function `retypedChildren` of the model
+# (lean/PM/KeptChildren.lean: the left-to-right filter `keptChildren` plus the fillers, theorem clearIncompatible_spec)
+# must give exactly the children the real call left.
+_CLEAR_LOG = []
+_CLEAR_ON = [False]
+_orig_clear = Transform.clear_incompatible
+
+
+def _logged_clear(self, pos, parent_type, match=None):
+    if not _CLEAR_ON[0]:
+        return _orig_clear(self, pos, parent_type, match)
+    before = gen.safe_node_at(self.doc, pos)
+    nfit = len(_FIT_LOG)
+    r = _orig_clear(self, pos, parent_type, match)
+    _CLEAR_LOG.append((before, parent_type, match, gen.safe_node_at(self.doc, pos), len(_FIT_LOG) - nfit))
+    return r
+
+
+Transform.clear_incompatible = _logged_clear
 
 
 def err_class(e):
@@ -195,6 +220,16 @@ def run(ctx):
         outs = ctx.driver.run(reqs) if reqs else []
         for req, (replay, exp), out in zip(reqs, metas, outs):
             ctx.count("model_requests")
+            if isinstance(exp, tuple) and exp[0] == "kept":
+                # the specification function of clear_incompatible against the children the real call left
+                _, want, tags = exp
+                if out.get("ok") != want:
+                    ctx.mismatch("retypedChildren", replay, want, out)
+                else:
+                    ctx.count("kept_tie")
+                    for t_ in tags:
+                        ctx.count(f"kept_tie:{t_}")
+                continue
             if isinstance(exp, tuple) and exp[0] == "plan":
                 # exact tie of a planner: the emitted step list (in order) and the outcome of applying it
                 _, name, st, steps, final = exp
@@ -255,7 +290,44 @@ def run(ctx):
             return dict(base, pos=args[0], type=info.nid[args[1].name], attrs=info.attrs(args[1], args[2]))
         if name == "set_block_type":
             return dict(base, **{"from": args[0], "to": args[1], "type": info.nid[args[2].name], "attrs": info.attrs(args[2], args[3])})
+        if name == "clear_incompatible":
+            return dict(base, pos=args[0], type=info.nid[args[1].name])
         return None
+
+    def kept_requests(clear_log, replay):
+        """one `retypedChildren` request per completed clear_incompatible call on a node with content that did not need
+        the Fitter (the hypothesis `fits = []` of clearIncompatible_spec)"""
+        for (before, pty, match, after, nfit) in clear_log:
+            if before is None or after is None or before.is_leaf or match is not None:
+                ctx.count("kept_tie_skipped:leaf_or_no_node")
+                continue
+            if nfit:
+                ctx.count("kept_tie_skipped:fitter_called")
+                continue
+            old_kids = [info.node(before.child(i)) for i in range(before.child_count)]
+            new_kids = [info.node(after.child(i)) for i in range(after.child_count)]
+            tags = []
+            if old_kids != new_kids:
+                tags.append("children_changed")
+            m_, dropped = pty.content_match, 0
+            for i in range(before.child_count):
+                m2 = m_.match_type(before.child(i).type)
+                if m2 is None:
+                    dropped += 1
+                else:
+                    m_ = m2
+            if dropped:
+                tags.append("child_dropped")
+            if not m_.valid_end:
+                tags.append("filled")
+            if not pty.spec.get("code") and any(c.is_text and re.search(r"[\r\n]", c.text) for c in before.content.content):
+                tags.append("newline_in_text")
+            if any(any(not pty.allows_mark_type(mk.type) for mk in before.child(i).marks) for i in range(before.child_count)):
+                tags.append("mark_not_allowed")
+            if not before.is_textblock:
+                tags.append("parent_not_textblock")
+            reqs.append({"op": "retypedChildren", "s": info.lean_id, "node": info.node(before), "type": info.nid[pty.name]})
+            metas.append((dict(replay, clear_incompatible={"node": before.to_json(), "type": pty.name}), ("kept", new_kids, tags)))
 
     fam = schemas.family()
     kinds = ["add_mark", "remove_mark", "add_node_mark", "remove_node_mark", "set_node_attribute",
@@ -282,12 +354,23 @@ def run(ctx):
                 d0, f0, t0, m0 = case
                 planned.append((d0, "add_mark", [f0, t0, m0], (lambda f0, t0, m0: lambda tr: tr.add_mark(f0, t0, m0))(f0, t0, m0)))
                 ctx.count("aimed_exclusion_cases")
+        for d in docs:
+            # clear_incompatible called directly on any node and any type (the operation is public; set_block_type only
+            # ever calls it on textblocks): tied like the other planners, and through `retypedChildren`
+            starts = gen.node_starts(d)
+            for _ in range(ctx.budget(3, 6)):
+                if not starts:
+                    break
+                p0, t0 = rng.choice(starts), rng.choice(list(schema.nodes.values()))
+                planned.append((d, "clear_incompatible", [p0, t0], (lambda p0, t0: lambda tr: tr.clear_incompatible(p0, t0))(p0, t0)))
+        _CLEAR_ON[0] = True
         for (d, name, args, thunk) in planned:
             for _once in (0,):
                 if ctx.time_left() < 0:
                     break
                 tr = Transform(d)
                 del _FIT_LOG[:]
+                del _CLEAR_LOG[:]
                 old_before = doc_tokens(d)      # the token picture of the input, taken before the operation runs
                 st, val, added = ops.run_op(tr, thunk)
                 fit_log = list(_FIT_LOG)
@@ -313,6 +396,10 @@ def run(ctx):
                     reqs.append(preq)
                     metas.append((replay, ("plan", name, st, [info.step(s) for s in tr.steps] if st == "ok" else None,
                                            info.node(tr.doc) if st == "ok" else None)))
+                if st != "hang":
+                    kept_requests(list(_CLEAR_LOG), replay)
+                if name == "clear_incompatible":
+                    continue    # no property statement of its own: the direct calls only feed the two ties above
                 if st in ("internal", "hang"):
                     ctx.violation(name + "-internal", f"{name} died with an internal error: {val}", replay)
                     continue
@@ -403,6 +490,7 @@ def run(ctx):
                         bad = f"result fails check(): {err}"
                 if bad:
                     ctx.violation(name, f"{name}: {bad}", dict(replay, result=tr.doc.to_json()))
+    _CLEAR_ON[0] = False
     flush()
     return ctx.finish(
         rule="a case is (schema, document, one mark/attribute/retype operation of Transform with random arguments); bundled-family "
